@@ -96,7 +96,7 @@ def file_events(s) -> List[dict]:
         if e.kind == "call" and e.name == "os.open":
             continue
         if e.kind == "call" and (e.name.startswith("os.") or e.name in ("builtins.open", "pickle.dump", "json.dump", "pickle.load", "json.load", "shutil.move") or e.name.startswith("file.")):
-            out.append({"i": i, "name": e.name, "args": [a.key() if isinstance(a, V) else a for a in e.args], "recv": e.recv.key() if isinstance(e.recv, V) else None, "kwargs": {k: (v.key() if isinstance(v, V) else v) for k, v in e.kwargs.items()}, "func": e.func, "line": e.line, "facts": e.facts, "argv": list(e.args)})
+            out.append({"i": i, "name": e.name, "args": [a.key() if isinstance(a, V) else a for a in e.args], "recv": e.recv.key() if isinstance(e.recv, V) else None, "kwargs": {k: (v.key() if isinstance(v, V) else v) for k, v in e.kwargs.items()}, "func": e.func, "line": e.line, "facts": e.facts, "argv": list(e.args), "kwargv": dict(e.kwargs)})
         elif e.kind in ("with_enter", "with_exit"):
             out.append({"i": i, "name": e.kind, "recv": e.recv.key() if isinstance(e.recv, V) else None, "extra": e.extra, "func": e.func, "line": e.line, "args": [], "facts": e.facts})
         elif e.kind == "store" and e.name == "need_save":
